@@ -177,7 +177,7 @@ class Check:
         self.extra: dict = {}
 
     # -- recording ------------------------------------------------------
-    def ob(self, rule, where, key, ok, what, node=None, strength="P", **detail):
+    def ob(self, rule, where, key, ok, what, /, node=None, strength="P", **detail):
         line = getattr(node, "lineno", None) if node is not None else detail.pop("line", None)
         self.obs.append(Ob(rule, where, str(key), bool(ok), what, line, _jsonable(detail), strength))
         self.functions.add(where)
